@@ -33,7 +33,7 @@ ASSUMPTIONS = [
 def cases(rng, tier):
     return [c for c in S.gen_cases(rng, tier, 200 if tier == "quick" else 3000) if c["mode"] == "deser"] \
         + X.directed_corrupt_cases() + X.gen_corrupt_cases(rng, 300 if tier == "quick" else 6000) \
-        + IH.directed_cases() + IH.gen_cases(random.Random(str(rng.getstate()[1][0])), 300 if tier == "quick" else 6000)
+        + X.decimal_cases() + IH.directed_cases() + IH.gen_cases(random.Random(str(rng.getstate()[1][0])), 300 if tier == "quick" else 6000)
 
 
 def search_cases(rng, tier):
@@ -48,17 +48,25 @@ def _ih(case):
     return case.get("suite") == "inheritdeser"
 
 
+def _dec(case):
+    return case.get("suite") == "extras-decimal"
+
+
 def run_impl(case):
+    if _dec(case):
+        return X.run_decimal(case)
     if _ih(case):
         return IH.run_impl(case)
     return X.run_corrupt(case) if _x(case) else S.run_impl(case)
 
 
 def line(case, impl):
-    return None if _x(case) or _ih(case) else S.line(case, impl)
+    return None if _x(case) or _ih(case) or _dec(case) else S.line(case, impl)
 
 
 def tags(case, impl, model):
+    if _dec(case):
+        return ["stream:extras-decimal"] + [f"decimal:{p['probe']}:{p.get('deser')}" for p in impl.get("probes", [])]
     if _ih(case):
         return ["stream:inheritdeser", "inherit:" + case["shape"]] + sorted({f"inherit-ctor:{'ok' if s['ctor'] == 'ok' else 'rejects'}" for s in impl.get("steps", [])})
     if _x(case):
@@ -67,16 +75,20 @@ def tags(case, impl, model):
 
 
 def nontrivial(case):
-    return True if _x(case) or _ih(case) else S.nontrivial(case)
+    return True if _x(case) or _ih(case) or _dec(case) else S.nontrivial(case)
 
 
 def describe(case, impl, model):
+    if _dec(case):
+        return {"decimal": case, "probes": impl.get("probes")}
     if _ih(case):
         return {"inheritdeser": case, "mro": impl.get("mro"), "steps": impl.get("steps")}
     return {"extras": case["fields"], "doc": impl.get("doc"), "out": impl.get("out"), "exc": impl.get("exc")} if _x(case) else S.describe(case, impl, model)
 
 
 def judge(case, impl, model):
+    if _dec(case):
+        return None, ([] if "skip" in impl else X.judge_decimal_deser(case, impl))
     if _ih(case):
         return None, IH.judge(case, impl)
     if _x(case):
